@@ -179,6 +179,10 @@ fn check_agg(name: &str, ag: &Agg, st: &mut RunStats) -> Result<(), Violation> {
             let want: Vec<u32> = ag.model.coupons.iter().copied().collect();
             check!(got == want, "C03.union_coupons", "{name}: to_sketch({t}) holds {} coupons, union of inputs has {}", got.len(), want.len());
             check!(got_lg == ag.model.lg_max_k, "C03.union_lg_k", "{name}: sparse union lg_k {got_lg} want lg_max_k {}", ag.model.lg_max_k);
+            // a union that still answers from a coupon list / set cannot hold more coupons than those modes do
+            let n = want.len();
+            let must_be = if n < 8 { 0 } else if got_lg < 8 || 4 * n > 3 * (1usize << (got_lg - 3)) { 2 } else { 1 };
+            check!(s.cur_mode >= must_be, "C03.union_mode", "{name}: to_sketch({t}) holds {n} coupons in mode {} at lg_k {got_lg}; the promotion rule implies at least mode {must_be}", s.cur_mode);
         } else {
             check!(got_lg == want_lg, "C03.union_lg_k", "{name}: lg_config_k {got_lg}, expected min(lg_max_k {}, array inputs) = {want_lg}", ag.model.lg_max_k);
             let want = ag.model.expected_regs();
@@ -287,6 +291,19 @@ impl Scenario for C03 {
                         }
                     }
                 }
+                13 if hi >= 8 && rng.chance(1, 3) => {
+                    // a sparse image from an early writer (lgArr byte zero: the reader derives the table
+                    // size from the count), holding exactly a table's 75 % load limit of coupons, one
+                    // more or one fewer; type ids 3..5 mark this form
+                    let lg_k = rng.range(8, hi) as u8;
+                    let lim = 3usize << rng.range(1, (lg_k - 5) as u64);
+                    let want = (lim + rng.usize_below(3)).saturating_sub(1);
+                    let mut setc: BTreeSet<u32> = BTreeSet::new();
+                    while setc.len() < want {
+                        setc.insert(((1 + rng.geometric(30)) << 26) | (rng.next_u32() & 0x3ff_ffff));
+                    }
+                    tail.push(Act::Foreign { lg_k, ty: 3 + rng.below(3) as u8, coupons: setc.into_iter().collect(), to });
+                }
                 13 => {
                     let lg_k = rng.range(4, hi) as u8;
                     let n = (1usize << lg_k) / 2 + rng.usize_below(1 << lg_k);
@@ -387,6 +404,21 @@ impl Scenario for C03 {
                 Act::Foreign { lg_k, ty: t, coupons, to } => {
                     let lg_k = (*lg_k).clamp(4, 21);
                     let fixed: Vec<u32> = coupons.iter().map(|c| ((*c >> 26).clamp(1, 63) << 26) | (*c & 0x3ff_ffff)).collect();
+                    if *t >= 3 {
+                        let set: BTreeSet<u32> = fixed.iter().copied().collect();
+                        let mode = if set.len() <= 7 { 0 } else { 1 };
+                        if set.is_empty() || (mode == 1 && (lg_k < 8 || 4 * set.len() > 3 * (1usize << (lg_k - 3)))) {
+                            continue;
+                        }
+                        let list: Vec<u32> = set.iter().copied().collect();
+                        let mut bytes = codec::encode(lg_k, *t % 3, mode, &list, &[], false, 0.0, codec::Layout::Compact);
+                        bytes[4] = 0;
+                        st.fault("foreign_sparse_image_without_lg_arr");
+                        for &a in to {
+                            net.push(Msg { to: a % na as u8, bytes: bytes.clone(), what: Contribution::Sparse(set.clone()) });
+                        }
+                        continue;
+                    }
                     let regs = fold_coupons(fixed.iter(), lg_k);
                     if regs.iter().all(|&v| v == 0) {
                         continue;
